@@ -27,7 +27,10 @@ func init() {
 			"release transaction runs are swept the same way (a tolerated failure is followed by contents/partition checks, an allocate-everything transaction, a commit, a reopen, " +
 			"and an abandoned flushing transaction + reopen); for fault runs with a commit attempt that failed by syncs only the crash images from that attempt to the end of the " +
 			"run are enumerated (coverage.classes_totals fault-crash-*): each must show completely the last successful commit, the commit in progress or such an unconfirmed " +
-			"attempt; a quarter of the histories runs on small bounded files with fill and overflow-area transactions; distinct_nontrivial = distinct histories with >= 1 run in which the fault " +
+			"attempt; after every Commit that failed before the header was published the complete allocator state (free lists, end markers, meta area size, overwrite mapping, metadata pages) " +
+			"equals the state when the transaction began, and the ownership partition holds after every item of a fault run; a constructed almost-full file whose overflow-area transaction needs several " +
+			"new free-list pages at commit (last data pages AND overflow pages moved to the meta area by one request) has every write/sync of that commit failed once (overflow-grow-*); " +
+			"a quarter of the histories runs on small bounded files with fill and overflow-area transactions; distinct_nontrivial = distinct histories with >= 1 run in which the fault " +
 			"made a Commit fail and later transactions ran; fault run counts are in coverage.classes_totals",
 		Assume: []string{
 			"writer drained after every scheduling call so that the k-th call of a kind is a function of the program",
@@ -140,6 +143,9 @@ func RunC08(p *harness.Program, thorough bool) Result {
 		if v := shrinkReleaseFaults(p.Cfg, aux(p, 1), c); v != nil {
 			return Result{V: v, Counters: c}
 		}
+		if v := overflowGrowFaults(aux(p, 1), c); v != nil {
+			return Result{V: v, Counters: c}
+		}
 		// (own watchdog: C08 cases run under the long enumeration guard, and a writer that stops
 		// releasing its write syncs makes Commit, Close or the drain hook wait for ever)
 		mc := map[string]int{}
@@ -196,7 +202,7 @@ func RunC08(p *harness.Program, thorough bool) Result {
 }
 
 func runWithFault(p *harness.Program, fp faultPlan, skip func(int, *harness.Item) bool, crashImages bool) (*harness.Runner, *harness.Violation) {
-	o := harness.RunOpts{Drain: true, CheckContent: true, CheckLockIdle: true, Faults: true, NoFinalClose: true, SkipItem: skip, TrackCommits: true}
+	o := harness.RunOpts{Drain: true, CheckContent: true, CheckOwnership: true, CheckLockIdle: true, Faults: true, NoFinalClose: true, SkipItem: skip, TrackCommits: true}
 	r, v := harness.NewRunner(p, o)
 	if v != nil {
 		return nil, v
@@ -723,6 +729,82 @@ func shrinkReleaseFaults(cfg harness.Config, seed uint64, c map[string]int) (v *
 				if vv != nil {
 					vv.Msg = desc + ": Open returned success, but: " + vv.Msg
 					return vv
+				}
+			}
+		}
+	}
+	return nil
+}
+
+// overflowGrowFaults: a commit that has to grow the meta area by several pages at once on an almost
+// full bounded file, inside a transaction that may use the overflow area: the last free data pages
+// AND pages beyond the maximum size are moved into the meta area by one request (only commit-time
+// requests, for free list or mapping pages, ask for more than one page). Every write and sync call of
+// that commit fails once; the failed commit must leave no trace (allocator state, ownership
+// partition, contents), a following transaction and a reopen must work.
+func overflowGrowFaults(seed uint64, c map[string]int) *harness.Violation {
+	rnd := harness.NewRand(seed ^ 0x0f10)
+	total := 290 + int(rnd()%60)
+	leave := 1 + int(rnd()%3)
+	nfree := 127 + int(rnd()%12)
+	if rnd()%3 == 0 {
+		nfree = 253 + int(rnd()%8) // three free list pages
+		total += 260
+	}
+	prog := &harness.Program{Cfg: harness.Config{PageSize: 1024, MaxPages: uint(total), InitMeta: uint32(rnd() % 3)}, Items: []harness.Item{
+		{Tx: &harness.Tx{Ops: []harness.Op{{K: harness.OpFill, A: leave}, {K: harness.OpWrite, A: 0, C: 41}, {K: harness.OpWrite, A: 7, C: 42}}, End: harness.EndCommit}},
+		{Tx: &harness.Tx{Overflow: true, Ops: []harness.Op{{K: harness.OpFreeMany, A: int(rnd() % 8), B: nfree, C: 2}}, End: harness.EndCommit}, Tag: "G"},
+		{Tx: &harness.Tx{Overflow: true, Ops: []harness.Op{{K: harness.OpAlloc, A: 3}, {K: harness.OpWrite, A: 1 << 20, C: 43}, {K: harness.OpWriteMany, A: 2, B: 3, C: 44}}, End: harness.EndCommit}},
+		{Tx: &harness.Tx{Ops: []harness.Op{{K: harness.OpAlloc, A: 2}, {K: harness.OpWrite, A: 1 << 20, C: 45}}, End: harness.EndCommit}},
+	}}
+	// reference run: where are the I/O calls of the commit of G, and did it take the mixed path?
+	ref, v := harness.NewRunner(prog, harness.RunOpts{Drain: true, CheckContent: true, CheckOwnership: true, TrackCommits: true})
+	if v != nil {
+		return v
+	}
+	var before, after [simdisk.NumCallKinds]int
+	var s0, s1 txfile.VerifSnapshot
+	for i := range prog.Items {
+		if i == 1 {
+			s0 = ref.F.VerifState()
+			cs := ref.Disk.Counts()
+			before[simdisk.CallWrite], before[simdisk.CallSync] = cs[simdisk.CallWrite], cs[simdisk.CallSync]
+		}
+		if v := ref.SafeRunItem(i, &prog.Items[i]); v != nil {
+			ref.Finish()
+			return v
+		}
+		if i == 1 {
+			s1 = ref.F.VerifState()
+			cs := ref.Disk.Counts()
+			after[simdisk.CallWrite], after[simdisk.CallSync] = cs[simdisk.CallWrite], cs[simdisk.CallSync]
+		}
+	}
+	if v := ref.Finish(); v != nil {
+		return v
+	}
+	avail0 := int(s0.DataAvail)
+	if uint(s0.DataEnd) < s0.MaxPages {
+		avail0 += int(s0.MaxPages) - int(s0.DataEnd)
+	}
+	c["overflow-grow-scenarios"]++
+	if avail0 >= 1 && uint(s1.MetaEnd) > s1.MaxPages && s1.MetaTotal >= s0.MetaTotal+2 {
+		// data pages were available, and the meta area still had to reach beyond the maximum size
+		c["overflow-grow-mixed-data+overflow"]++
+	}
+	skip := func(int, *harness.Item) bool { return false }
+	for _, k := range []simdisk.CallKind{simdisk.CallWrite, simdisk.CallSync} {
+		for ord := before[k]; ord < after[k]; ord++ {
+			for _, m := range modesFor(k) {
+				fp := faultPlan{simdisk.Fault{Kind: k, Ordinal: ord, Burst: 1, Mode: m, NoSpace: rnd()%2 == 0}}
+				fr, v := runWithFault(prog, fp, skip, false)
+				c["overflow-grow-fault-runs"]++
+				if fr != nil {
+					c["overflow-grow-commit-failed"] += fr.Counters["failed-commit-state-compared"]
+				}
+				if v != nil {
+					v.Msg = fmt.Sprintf("overflow-grow scenario (%d pages of 1 KiB, %d left free, %d alternate pages freed with the overflow area enabled), fault plan {%s}: %s", total, leave, nfree, fp.String(), v.Msg)
+					return v
 				}
 			}
 		}
